@@ -219,6 +219,9 @@ func (m *Model) Enabled() []string {
 		if !m.crafted[s.Label] {
 			for i := range m.nodes {
 				out = append(out, ev("X", i, s.Label))
+				for _, k := range m.Cfg.DeliverCancel {
+					out = append(out, ev("XC", i, s.Label, k))
+				}
 			}
 		}
 	}
@@ -342,10 +345,15 @@ func (m *Model) Apply(e string) string {
 		m.produced = append(m.produced, v)
 		m.delivered[fmt.Sprintf("%d/%d", i, len(m.produced)-1)]++
 		return world.ErrClass(m.W.Deliver(ctx, i, v))
-	case "X", "Y":
+	case "X", "Y", "XC":
 		i, _ := strconv.Atoi(p[1])
 		t := m.txs[p[2]]
 		m.crafted[p[2]] = true
+		if p[0] == "XC" {
+			// the crafted vertex reaches the node in a call whose caller goes away at the k-th context poll
+			k, _ := strconv.Atoi(p[3])
+			ctx = world.NewCountCtx(k)
+		}
 		tips := m.tips(i)
 		if len(tips) == 0 {
 			return "no-tips"
